@@ -251,7 +251,14 @@ fn item(t: &mut Tape) -> E {
         0 => E::Str(t.pick(&["A", "HELLO", "", "é", "日本語", "x y", "12345678901234", "1234567890123", "*"]).to_string()),
         1 => lit(t.range(-1000, 1000)),
         2 => E::Call("TAB", vec![lit(*t.pick(&[0i64, 1, 5, 13, 14, 15, 20, 28, 40, 255, -1, -5, -14]))]),
-        3 => E::Call("SPC", vec![lit(t.range(0, 20))]),
+        3 => {
+            if t.chance(1, 5) {
+                // a fractional count is floored, in the type it comes in
+                E::Call("SPC", vec![E::Lit(t.pick(&["2.99999999#", "2.5", "0.99999999#", "3.9999999", "13.99999999#", "1D0"]).to_string())])
+            } else {
+                E::Call("SPC", vec![lit(t.range(0, 20))])
+            }
+        }
         4 => E::Call("POS", vec![lit(0)]),
         5 => E::Lit(t.pick(&["2.5", "0.1", "1E10", "123456789", "1.5#", "32768"]).to_string()),
         _ => E::Bin(Bin::Add, Box::new(E::Str("a".into())), Box::new(E::Bin(Bin::Add, Box::new(E::Call("CHR$", vec![lit(10)])), Box::new(E::Str("bc".into()))))),
@@ -295,6 +302,8 @@ fn check_layout(t: &mut Tape, ctx: &Ctx) -> Outcome {
     let tron_inside = t.chance(1, 6);
     let mut has_input = false;
     let mut carried = false;
+    let mut n_stops = 0usize;
+    let mut has_error = false;
     for i in 0..nlines {
         let k = 1 + t.below(3);
         let mut stmts = vec![];
@@ -306,9 +315,16 @@ fn check_layout(t: &mut Tape, ctx: &Ctx) -> Outcome {
                 }
                 1 if tron_inside => stmts.push(if t.chance(1, 2) { Stmt::Tron } else { Stmt::Troff }),
                 3 if t.chance(1, 3) => stmts.push(Stmt::Clear), // CLEAR has nothing to do with the cursor
+                4 if t.chance(1, 3) => {
+                    // a stop in mid-line: the break message starts on a fresh line and CONT goes on
+                    // from column 0
+                    stmts.push(Stmt::Stop);
+                    n_stops += 1;
+                }
                 2 if i + 1 < nlines && t.chance(1, 3) => {
                     // an error in the middle of a line: the message starts on a fresh line
                     stmts.push(Stmt::Let { lv: Lval::Var(Name::new("E%")), e: E::Bin(Bin::Add, Box::new(E::Lit("32767".into())), Box::new(E::Lit("1".into()))), kw: false });
+                    has_error = true;
                 }
                 _ => {
                     let p = print_list(t);
@@ -330,6 +346,10 @@ fn check_layout(t: &mut Tape, ctx: &Ctx) -> Outcome {
         directs.push(vec![Stmt::Tron]);
     }
     directs.push(vec![Stmt::Run(None)]);
+    // (CONT after an error is not part of the generated fragment)
+    for _ in 0..(if has_error { 0 } else { n_stops.min(3) }) {
+        directs.push(vec![Stmt::Cont]);
+    }
     // the column is 0 again for the next run; a second run must look the same
     directs.push(vec![Stmt::Run(None)]);
     directs.push(vec![print_list(t)]);
